@@ -274,3 +274,22 @@ def _ordered_dict(it, *a, **k):
 
 
 CLASS_MODELS[_collections.OrderedDict] = _ordered_dict
+
+
+# ---------------------------------------------------------------------------------------------------------------------
+# str/bytes.removeprefix / removesuffix (exact)
+
+for _T in (SStr, SBytes):
+    def _mk_remove(T):
+        def _removeprefix(it, s, p):
+            n, m = z3.Length(s.t), z3.Length(p.t)
+            return T(simp(z3.If(z3.PrefixOf(p.t, s.t), z3.SubString(s.t, m, n - m), s.t)))
+
+        def _removesuffix(it, s, p):
+            n, m = z3.Length(s.t), z3.Length(p.t)
+            return T(simp(z3.If(z3.And(m > 0, z3.SuffixOf(p.t, s.t)), z3.SubString(s.t, 0, n - m), s.t)))
+
+        METHODS.setdefault((T, "removeprefix"), _removeprefix)
+        METHODS.setdefault((T, "removesuffix"), _removesuffix)
+
+    _mk_remove(_T)
